@@ -8,7 +8,10 @@ HOOK_FLAGS = ['-DMI_VERIF_HOOKS="%s"' % os.path.join(vlib.HARN, "hooks.h"), "-DM
 
 KINDS = {
     "C02": {"tfree": {"overlap", "content", "crash", "livelock", "fail"}, "exit": {"overlap", "content", "crash"}},
-    "C08": {"tfree": {"lost", "leak", "livelock"}},
+    "C08": {"tfree": {"lost", "leak", "livelock"},
+            # producer/consumer with a bounded number of live blocks (harness/prodcons.h); `unbounded` = the owner's heap holds more pages /
+            # more remotely freed but unreclaimed blocks than the bound derived from the number of live blocks and the drain period
+            "prodcons": {"unbounded", "lost", "leak", "livelock", "crash", "content", "overlap", "fail"}},
     "C09": {"exit": {"content", "overlap", "crash", "abandoned-leak", "leak", "segment-leak", "livelock", "fail"}},
     "C10": {"heap": {"content", "overlap", "crash", "leak", "livelock", "fail"}},
     "C12": {"exit": {"abandoned-visit"}},
@@ -72,6 +75,7 @@ def run_conc(res, pid, seed, tier, envs=(None,), nseeds_quick=36):
     stats = collections.Counter()
     found = {}
     jobs = []
+    prodcons = {}
     for mode in KINDS[pid]:
         for env in envs:
             for i in range(nseeds):
@@ -88,6 +92,12 @@ def run_conc(res, pid, seed, tier, envs=(None,), nseeds_quick=36):
             if end:
                 stats["atomic_steps"] += int(end.group(1))
                 if end.group(3): stats["context_switches"] += int(end.group(3)); stats["spurious_cas_failures"] += int(end.group(4))
+            for m in re.finditer(r'^O prodcons t\d+ allocs=(\d+) max_pages=(\d+) max_segments=(\d+) max_unreclaimed=(\d+) bound_pages=(\d+) bound_unreclaimed=(\d+)', out, re.M):
+                al, mp, ms, mu, bp, bu = (int(x) for x in m.groups())
+                stats["prodcons_producers"] += 1; stats["prodcons_allocations"] += al
+                pc = prodcons.setdefault("collect16" if bu < 100 else "plain", {"max_pages": 0, "bound_pages_min": bp, "max_unreclaimed": 0, "bound_unreclaimed_min": bu, "max_segments": 0})
+                pc["max_pages"] = max(pc["max_pages"], mp); pc["max_unreclaimed"] = max(pc["max_unreclaimed"], mu); pc["max_segments"] = max(pc["max_segments"], ms)
+                pc["bound_pages_min"] = min(pc["bound_pages_min"], bp); pc["bound_unreclaimed_min"] = min(pc["bound_unreclaimed_min"], bu)
             for kind, text in v:
                 stats["viol:" + kind] += 1
                 if kind in KINDS[pid][mode] and kind not in found:
@@ -103,6 +113,9 @@ def run_conc(res, pid, seed, tier, envs=(None,), nseeds_quick=36):
     res.cov["traces_validated_against_impl"] += stats["schedules"]
     d = res.cov.setdefault("input_distribution", {})
     d["scheduler"] = {k: v for k, v in stats.items()}
+    if prodcons:
+        # measured maxima on this tree against the derived bounds (smallest bound over the thread counts used)
+        d["prodcons_bounded_memory"] = prodcons
     res.add_samples(["s_conc %s %d %d %d" % (j[0], j[1], j[2], j[3]) for j in jobs[:3]])
     return stats
 
